@@ -48,7 +48,7 @@ def accumulating (k : String × String × String × String) : Bool :=
 kernels of one OR group). A kernel that overwrites the mask, like the original int `isnull`, is a counterexample. -/
 theorem gen_kernels_accumulate : Gen.kernels.all accumulating = true := by decide
 
-/-- The comparator tables and the kernels are the ones the spec's `leafPred` was written against. -/
+/-- The comparator tables are the ones the spec's `leafPred` was written against (the kernels' semantics: `C02Kernels`). -/
 theorem gen_kernels_same : Tie.kernelsSame = true := by decide
 
 end QF.Props.C02
